@@ -29,6 +29,8 @@ type Violation struct {
 	Msg    string            `json:"msg"`
 	Inputs map[string]uint64 `json:"inputs"`
 	Key    string            `json:"key"`
+	Choices []int            `json:"choices,omitempty"`
+	Stack  []string          `json:"stack,omitempty"`
 }
 
 type abortRun struct{ why string }   // unwinds the interpreter; path ends
@@ -55,6 +57,7 @@ type Explorer struct {
 	Truncated    string // non-empty: exploration incomplete (why)
 	forcedPrefix []bool
 	Fallbacks    []string
+	UserChoices  []int
 	FallbackMs   int
 	FallbackQueries, FallbackSolved int
 	FallbackTime time.Duration
@@ -117,11 +120,18 @@ func (e *Explorer) branch(cond *Term, prefer bool) bool {
 
 // check asks the primary solver, then the fallback back ends on unknown.
 func (e *Explorer) check(extra *Term) (Result, *Model) {
+	if !e.Deadline.IsZero() && time.Now().After(e.Deadline) {
+		e.Truncated = "time budget reached"
+		panic(abortRun{"deadline"})
+	}
 	res, m := e.solver.CheckWith(extra, true)
 	if res != Unknown || len(e.solver.Errors) > 0 {
 		return res, m
 	}
 	for _, kind := range e.Fallbacks {
+		if !e.Deadline.IsZero() && time.Now().After(e.Deadline) {
+			break
+		}
 		fb, err := NewSolver(e.tt, kind, e.FallbackMs)
 		if err != nil {
 			continue
@@ -231,7 +241,7 @@ func (e *Explorer) report(kind, site, msg string) {
 		return
 	}
 	e.vioKeys[key] = true
-	e.Violations = append(e.Violations, Violation{Kind: kind, Site: site, Msg: msg, Inputs: e.inputs(), Key: key})
+	e.Violations = append(e.Violations, Violation{Kind: kind, Site: site, Msg: msg, Inputs: e.inputs(), Key: key, Choices: append([]int(nil), e.UserChoices...)})
 }
 
 // next prepares the next path; false when the tree is exhausted.
